@@ -177,26 +177,41 @@ theorem getPipes_sorted_perm (order : List Pipe) :
 
 /-! ### paging of SHOW PIPES -/
 
-theorem showPipes_eq (names : List Bytes) (lim offs : Nat) (hl : 0 < lim) :
+theorem wrap64_of_small (x : Int) (h0 : 0 ≤ x) (h1 : x ≤ maxInt64) : wrap64 x = x := by
+  unfold wrap64 maxInt64 at *; omega
+
+theorem wrap64_of_overflow (x : Int) (h0 : maxInt64 < x) (h1 : x ≤ 2 * maxInt64) : wrap64 x < 0 := by
+  unfold wrap64 maxInt64 at *; omega
+
+/-- for every limit and offset an `int` can hold (also when `lim+offs` wraps around) the page is
+`(names.drop offs).take lim` -/
+theorem showPipes_eq (names : List Bytes) (lim offs : Nat) (hl : 0 < lim)
+    (hlm : (lim : Int) ≤ maxInt64) (hom : (offs : Int) ≤ maxInt64) :
     showPipes names (some lim) (some offs) = some ((names.drop offs).take lim) := by
   unfold showPipes
   have h0 : ¬ ((lim : Int) == 0) = true := by simp; omega
   simp only [Option.getD_some, h0, if_false, Bool.false_eq_true]
   have h1 : ¬ ((offs : Int) < 0) := by omega
   simp only [h1, if_false]
-  by_cases h2 : (lim : Int) + offs > names.length
-  · simp only [h2, if_true]
-    by_cases h3 : (names.length : Int) - offs < 0
-    · simp only [h3, if_true]
-      have : names.length ≤ offs := by omega
-      simp [List.drop_eq_nil_of_le this]
-    · simp only [h3, if_false]
-      congr 1
-      have e : ((names.length : Int) - offs).toNat = names.length - offs := by omega
-      rw [e]
-      simp only [Int.toNat_natCast]
-      rw [List.take_of_length_le (by simp), List.take_of_length_le (by simp; omega)]
-  · simp only [h2, if_false]
+  by_cases hov : (lim : Int) + offs ≤ maxInt64
+  · rw [wrap64_of_small _ (by omega) hov]
+    by_cases h2 : (lim : Int) + offs > names.length
+    · simp only [h2, if_true]
+      by_cases h3 : (names.length : Int) - offs < 0
+      · simp only [h3, if_true]
+        have : names.length ≤ offs := by omega
+        simp [List.drop_eq_nil_of_le this]
+      · simp only [h3, if_false]
+        congr 1
+        have e : ((names.length : Int) - offs).toNat = names.length - offs := by omega
+        rw [e]
+        simp only [Int.toNat_natCast]
+        rw [List.take_of_length_le (by simp), List.take_of_length_le (by simp; omega)]
+    · simp only [h2, if_false]
+      simp
+  · have hneg := wrap64_of_overflow ((lim : Int) + offs) (by omega) (by unfold maxInt64 at *; omega)
+    have h2 : ¬ (wrap64 ((lim : Int) + offs) > names.length) := by omega
+    simp only [h2, if_false]
     simp
 
 /-- walking the listing with pages of `k` names starting at `offs` visits exactly `names.drop offs` -/
